@@ -23,7 +23,14 @@ type binding struct {
 func bindingsFor(r *rand.Rand) []binding {
 	t := time.Date(1970+r.Intn(33), time.Month(1+r.Intn(12)), 1+r.Intn(28), r.Intn(24), r.Intn(60), r.Intn(60), 0, time.UTC)
 	ms := int64(r.Intn(20000) - 10000)
+	// a duration as whole seconds + nanoseconds of the same sign: int64(d / time.Second) is the seconds
+	secs := []int64{0, 1, 59, 86400 * 194, 86400 * 200, 86400 * 365 * 20, 1000000000, int64(r.Intn(1000000000))}[r.Intn(8)]
+	nanos := []int64{0, 1, 2, 499999999, 500000000, 999999998, 999999999, int64(r.Intn(1000000000))}[r.Intn(8)]
+	if r.Intn(2) == 0 {
+		secs, nanos = -secs, -nanos
+	}
 	return []binding{
+		{"duration_sn", []interface{}{secs, nanos}, time.Duration(secs)*time.Second + time.Duration(nanos)},
 		{"int", 7, int(7)}, {"int8", -8, int8(-8)}, {"int16", 300, int16(300)}, {"int32", -70000, int32(-70000)},
 		{"int64", 123456, int64(123456)}, {"uint8", 200, uint8(200)}, {"uint16", 65535, uint16(65535)},
 		{"uint32", 1 << 29, uint32(1 << 29)}, {"uint64", 99, uint64(99)}, {"uint64max", 0, uint64(1<<64 - 1)},
@@ -79,6 +86,48 @@ func famReg() {
 		nsteps := 1 + r.Intn(6)
 		probeOp := func(_ *eval.Ctx, ps []eval.Value) (eval.Value, error) { return true, nil }
 		cc.OperatorMap["probe"] = probeOp
+		// a program compiled BEFORE the history: in undefined-variable mode over names that may only be
+		// registered later (or never), otherwise over names that already have a key
+		var early *eval.Expr
+		var earlyNames []string
+		var earlySeen []eval.Value
+		{
+			var cand []string
+			if undef {
+				for _, ix := range r.Perm(len(names))[:3] {
+					cand = append(cand, names[ix])
+				}
+			} else {
+				for n := range cc.VariableKeyMap {
+					cand = append(cand, n)
+				}
+				sort.Strings(cand)
+				if len(cand) > 3 {
+					cand = cand[:3]
+				}
+			}
+			if len(cand) > 0 {
+				cc0 := eval.CopyConfig(cc)
+				cc0.OperatorMap["probe"] = func(_ *eval.Ctx, ps []eval.Value) (eval.Value, error) {
+					earlySeen = append([]eval.Value{}, ps...)
+					return true, nil
+				}
+				emask := []int{0, 4, 15}[r.Intn(3)]
+				if emask == 4 && len(cand) > 2 {
+					cand = cand[:2]
+				}
+				for j, n := range optNames {
+					cc0.CompileOptions[n] = emask&(1<<uint(j)) != 0
+				}
+				src := "(probe"
+				for _, n := range cand {
+					src += " " + n
+				}
+				if e, err := eval.Compile(cc0, src+")"); err == nil {
+					early, earlyNames = e, cand
+				}
+			}
+		}
 		for s := 0; s < nsteps; s++ {
 			if r.Intn(4) == 0 {
 				// RegVarAndOp with a set of names (Go map iteration order) and an operator
@@ -99,6 +148,13 @@ func famReg() {
 				steps = append(steps, M{"op": "reg", "names": []interface{}{n}, "key": int(k), "km": kmRec(cc)})
 			}
 		}
+		if early != nil && undef && r.Intn(2) == 0 {
+			// lazy registration: the names of the early program get their keys only now
+			for _, n := range earlyNames {
+				k := eval.GetOrRegisterKey(cc, n)
+				steps = append(steps, M{"op": "reg", "names": []interface{}{n}, "key": int(k), "km": kmRec(cc)})
+			}
+		}
 		rec["steps"] = steps
 		// read every registered variable through an expression, under both fetchers
 		var regd []string
@@ -107,6 +163,11 @@ func famReg() {
 		}
 		if undef {
 			regd = append(regd, "u1", "u2") // not registered: read by name through the undefined key
+			for _, n := range earlyNames {
+				if _, ok := cc.VariableKeyMap[n]; !ok {
+					regd = append(regd, n)
+				}
+			}
 		}
 		sort.Strings(regd)
 		bs := bindingsFor(r)
@@ -187,6 +248,31 @@ func famReg() {
 			}
 		} else {
 			rec["chosen"] = "none"
+		}
+		if early != nil {
+			// the early program, under contexts built after the history from the values of its own names only
+			sub := map[string]interface{}{}
+			var used []interface{}
+			for _, n := range earlyNames {
+				sub[n] = vals[n]
+				used = append(used, n)
+			}
+			for _, f := range []struct {
+				name string
+				mk   func() eval.VariableFetcher
+			}{{"auto-early", func() eval.VariableFetcher { return eval.NewCtxFromVars(cc, sub).VariableFetcher }},
+				{"map-early", func() eval.VariableFetcher { return eval.NewMapVarFetcher(sub) }}} {
+				earlySeen = nil
+				res := safely(func() M {
+					v, err := early.Eval(&eval.Ctx{VariableFetcher: f.mk()})
+					return outcome(v, err)
+				})
+				vs := []interface{}{}
+				for _, v := range earlySeen {
+					vs = append(vs, tv(deepCopy(v)))
+				}
+				reads = append(reads, M{"fetcher": f.name, "mask": -1, "names": used, "out": res["t"], "vals": vs})
+			}
 		}
 		rec["reads"] = reads
 		emit(rec)
